@@ -194,7 +194,13 @@ impl G {
     }
 
     fn write_op(&mut self, s: u32) -> String {
-        match self.r.below(6) {
+        // SetVIDVerificationStatement stores the fabric record at once unless it rides along with staged
+        // changes of the fail-safe's fabric: asked for more often right after a deferred write
+        if self.deferred_case_write && self.r.chance(1, 3) {
+            return format!("vvs {} {}", s, self.r.range(1, 9));
+        }
+        match self.r.below(7) {
+            6 => format!("vvs {} {}", s, self.r.range(1, 9)),
             4 => format!("gkm {} {}", s, self.r.range(1, 9)),
             5 => format!("bcw {} {}", s, self.r.range(1, 9)),
             0 => format!("acl {} {}", s, self.r.range(200, 203)),
@@ -555,7 +561,7 @@ fn h_compat(ops: &[String]) -> Vec<String> {
         let w: Vec<&str> = op.split_whitespace().collect();
         let n = |i: usize| -> u64 { w.get(i).and_then(|x| x.parse().ok()).unwrap_or(0) };
         let kind = w.first().copied().unwrap_or("");
-        if ["open", "arm", "csr", "root", "addnoc", "updnoc", "acl", "grp", "label", "net", "rmnet", "complete", "rmfab", "revoke", "bcw", "gkm", "addgrp", "ksw"].contains(&kind) {
+        if ["open", "arm", "csr", "root", "addnoc", "updnoc", "acl", "grp", "label", "net", "rmnet", "complete", "rmfab", "revoke", "bcw", "gkm", "addgrp", "ksw", "vvs"].contains(&kind) {
             last_sid = n(1);
         }
         match kind {
